@@ -517,12 +517,22 @@ func (s *Service) ProcessRequest(ctx *core.Context, m map[string]interface{}, ou
 			return nil, err
 		}
 
-		limit, given := m["limit"]
-		if !given {
-			limit = float64(-1)
+		lim := -1
+		if limit, given := m["limit"]; given {
+			// A number from JSON, or from a query parameter.
+			switch vv := limit.(type) {
+			case float64:
+				lim = int(vv)
+			case int64:
+				lim = int(vv)
+			case int:
+				lim = vv
+			default:
+				return nil, fmt.Errorf("Parameter limit type %T wrong", limit)
+			}
 		}
 
-		history := core.GetTimerHistory(name, aft, int(limit.(float64)))
+		history := core.GetTimerHistory(name, aft, lim)
 		js, err := json.Marshal(history)
 		if err != nil {
 			return m, err
